@@ -80,6 +80,13 @@ def check_config(cfg):
     facts = dict(cfg)
     X = np.array([PRIMES[:n], PRIMES[n:2 * n]], dtype=np.float64)
     ef, out, ref = _run(cfg, X, facts)
+    # the same configuration reached through set_params on an instance built with the opposite flags (clone + set_params of a grid search)
+    ef2 = _ef.ExtendedFeatures(kind=cfg["kind"], poly_degree=cfg["degree"] + 1, poly_interaction_only=not cfg["interaction_only"], poly_include_bias=not cfg["include_bias"])
+    ef2.set_params(poly_degree=cfg["degree"], poly_interaction_only=cfg["interaction_only"], poly_include_bias=cfg["include_bias"])
+    out2 = ef2.fit(X).transform(X)
+    require(np.asarray(out2).shape == np.asarray(out).shape and np.array_equal(np.asarray(out2), np.asarray(out)), "set_params:other-output-than-constructor",
+            "an instance configured with set_params transforms differently from one built with the same values", facts)
+    require(list(ef2.get_feature_names_out()) == list(ef.get_feature_names_out()), "set_params:other-names-than-constructor", "", facts)
     names = list(ef.get_feature_names_out())
     require(len(names) == out.shape[1], "names:count", "%d names for %d columns" % (len(names), out.shape[1]), facts)
     seen = set()
